@@ -55,34 +55,59 @@ var PayloadStrings = []string{
 
 var floatPool = []float64{0.5, -0.5, 1e21, 1e-7, math.Copysign(0, -1), 1.5, 2.25, 9007199254740993, 1e300, -1, 0.1, 0.30000000000000004, 100}
 
-func pick[T any](t *rapid.T, label string, xs []T) T {
-	return xs[rapid.IntRange(0, len(xs)-1).Draw(t, label)]
+// Int draws an integer uniformly from [lo, hi]. rapid's own integer
+// generators favour small magnitudes, which would skew every weighted
+// choice below; fair bits (rapid.Bool) are combined instead.
+func Int(t *rapid.T, label string, lo, hi int) int {
+	if hi <= lo {
+		return lo
+	}
+	n := uint64(hi - lo + 1)
+	bits := 2
+	for (uint64(1) << uint(bits)) < 8*n {
+		bits++
+	}
+	var v uint64
+	bg := rapid.Bool()
+	for i := 0; i < bits; i++ {
+		v <<= 1
+		if bg.Draw(t, label) {
+			v |= 1
+		}
+	}
+	return lo + int((v*n)>>uint(bits))
 }
 
-func chance(t *rapid.T, label string, pct int) bool {
-	return rapid.IntRange(0, 99).Draw(t, label) < pct
-}
+// Pick draws an element uniformly.
+func Pick[T any](t *rapid.T, label string, xs []T) T { return xs[Int(t, label, 0, len(xs)-1)] }
+
+func pick[T any](t *rapid.T, label string, xs []T) T { return Pick(t, label, xs) }
+
+// Chance is true with probability pct/100.
+func Chance(t *rapid.T, label string, pct int) bool { return Int(t, label, 0, 99) < pct }
+
+func chance(t *rapid.T, label string, pct int) bool { return Chance(t, label, pct) }
 
 // Scalar draws a scalar value.
 func Scalar(t *rapid.T, p Profile) V {
-	r := rapid.IntRange(0, 99).Draw(t, "scalarKind")
+	r := Int(t, "scalarKind", 0, 99)
 	switch {
 	case r < 45:
-		return float64(rapid.IntRange(0, 3).Draw(t, "int"))
+		return float64(Int(t, "int", 0, 3))
 	case r < 68:
 		return pick(t, "str", plainStrings)
 	case r < 76:
 		return rapid.Bool().Draw(t, "bool")
 	case r < 84:
 		if p.NullFree {
-			return float64(rapid.IntRange(0, 3).Draw(t, "int"))
+			return float64(Int(t, "int", 0, 3))
 		}
 		return nil
 	case r < 92:
 		if p.Floats {
 			return pick(t, "float", floatPool)
 		}
-		return float64(rapid.IntRange(0, 3).Draw(t, "int"))
+		return float64(Int(t, "int", 0, 3))
 	default:
 		if p.Payload {
 			return pick(t, "payload", PayloadStrings)
@@ -107,7 +132,7 @@ func Value(t *rapid.T, p Profile, depth int) V {
 	if depth >= p.MaxDepth {
 		return Scalar(t, p)
 	}
-	r := rapid.IntRange(0, 99).Draw(t, "kind")
+	r := Int(t, "kind", 0, 99)
 	arrCut := 35 + p.ArrayBias*35/100
 	switch {
 	case r < arrCut:
@@ -122,11 +147,11 @@ func Value(t *rapid.T, p Profile, depth int) V {
 // Array draws an array with forced repeats.
 func Array(t *rapid.T, p Profile, depth int) V {
 	p = p.norm()
-	n := rapid.IntRange(0, p.MaxArr).Draw(t, "arrLen")
+	n := Int(t, "arrLen", 0, p.MaxArr)
 	out := make([]V, 0, n)
 	for i := 0; i < n; i++ {
 		if i > 0 && chance(t, "repeat", 25) {
-			out = append(out, val.Clone(out[rapid.IntRange(0, i-1).Draw(t, "repeatOf")]))
+			out = append(out, val.Clone(out[Int(t, "repeatOf", 0, i-1)]))
 			continue
 		}
 		if p.ScalarArr {
@@ -141,7 +166,7 @@ func Array(t *rapid.T, p Profile, depth int) V {
 // Object draws an object.
 func Object(t *rapid.T, p Profile, depth int) V {
 	p = p.norm()
-	n := rapid.IntRange(0, p.MaxObj).Draw(t, "objLen")
+	n := Int(t, "objLen", 0, p.MaxObj)
 	out := map[string]V{}
 	for i := 0; i < n; i++ {
 		out[key(t, p)] = Value(t, p, depth+1)
@@ -223,7 +248,7 @@ func Edit(t *rapid.T, a V, p Profile) V {
 		return Doc(t, p)
 	}
 	b := val.Clone(a)
-	n := rapid.IntRange(1, 4).Draw(t, "nEdits")
+	n := Int(t, "nEdits", 1, 4)
 	for i := 0; i < n; i++ {
 		b = editAt(t, b, p, 0)
 	}
@@ -237,7 +262,7 @@ func editAt(t *rapid.T, v V, p Profile, depth int) V {
 	switch x := v.(type) {
 	case []V:
 		if len(x) > 0 && chance(t, "descend", 45) {
-			i := rapid.IntRange(0, len(x)-1).Draw(t, "descendIdx")
+			i := Int(t, "descendIdx", 0, len(x)-1)
 			x[i] = editAt(t, x[i], p, depth+1)
 			return x
 		}
@@ -267,45 +292,45 @@ func newElem(t *rapid.T, p Profile, depth int) V {
 }
 
 func editArray(t *rapid.T, x []V, p Profile, depth int) V {
-	op := rapid.IntRange(0, 9).Draw(t, "arrOp")
+	op := Int(t, "arrOp", 0, 9)
 	n := len(x)
 	switch {
 	case op == 0 || n == 0: // insert
-		i := rapid.IntRange(0, n).Draw(t, "insAt")
+		i := Int(t, "insAt", 0, n)
 		e := newElem(t, p, depth)
 		out := append([]V{}, x[:i]...)
 		out = append(out, e)
 		return append(out, x[i:]...)
 	case op == 1: // delete
-		i := rapid.IntRange(0, n-1).Draw(t, "delAt")
+		i := Int(t, "delAt", 0, n-1)
 		out := append([]V{}, x[:i]...)
 		return append(out, x[i+1:]...)
 	case op == 2: // replace
-		i := rapid.IntRange(0, n-1).Draw(t, "replAt")
+		i := Int(t, "replAt", 0, n-1)
 		x[i] = newElem(t, p, depth)
 		return x
 	case op == 3: // duplicate
-		i := rapid.IntRange(0, n-1).Draw(t, "dupAt")
-		j := rapid.IntRange(0, n).Draw(t, "dupTo")
+		i := Int(t, "dupAt", 0, n-1)
+		j := Int(t, "dupTo", 0, n)
 		e := val.Clone(x[i])
 		out := append([]V{}, x[:j]...)
 		out = append(out, e)
 		return append(out, x[j:]...)
 	case op == 4 && n >= 2: // adjacent swap
-		i := rapid.IntRange(0, n-2).Draw(t, "swapAt")
+		i := Int(t, "swapAt", 0, n-2)
 		x[i], x[i+1] = x[i+1], x[i]
 		return x
 	case op == 5 && n >= 2: // rotate / shuffle by drawn permutation
 		perm := rapid.Permutation(x).Draw(t, "perm")
 		return perm
 	case op == 6: // delete a run
-		i := rapid.IntRange(0, n-1).Draw(t, "runAt")
-		l := rapid.IntRange(1, n-i).Draw(t, "runLen")
+		i := Int(t, "runAt", 0, n-1)
+		l := Int(t, "runLen", 1, n-i)
 		out := append([]V{}, x[:i]...)
 		return append(out, x[i+l:]...)
 	case op == 7: // insert a run
-		i := rapid.IntRange(0, n).Draw(t, "insRunAt")
-		l := rapid.IntRange(2, 3).Draw(t, "insRunLen")
+		i := Int(t, "insRunAt", 0, n)
+		l := Int(t, "insRunLen", 2, 3)
 		out := append([]V{}, x[:i]...)
 		for k := 0; k < l; k++ {
 			out = append(out, newElem(t, p, depth))
@@ -317,16 +342,16 @@ func editArray(t *rapid.T, x []V, p Profile, depth int) V {
 		}
 		return Scalar(t, p)
 	default: // two separated edits
-		i := rapid.IntRange(0, n-1).Draw(t, "e1")
+		i := Int(t, "e1", 0, n-1)
 		x[i] = newElem(t, p, depth)
-		j := rapid.IntRange(0, n-1).Draw(t, "e2")
+		j := Int(t, "e2", 0, n-1)
 		x[j] = newElem(t, p, depth)
 		return x
 	}
 }
 
 func editObject(t *rapid.T, x map[string]V, p Profile, depth int) V {
-	op := rapid.IntRange(0, 5).Draw(t, "objOp")
+	op := Int(t, "objOp", 0, 5)
 	ks := val.Keys(x)
 	switch {
 	case op == 0 || len(ks) == 0: // add key
@@ -366,7 +391,7 @@ func editObject(t *rapid.T, x map[string]V, p Profile, depth int) V {
 // equal.
 func Pair(t *rapid.T, p Profile) (V, V, string) {
 	a := Doc(t, p)
-	r := rapid.IntRange(0, 99).Draw(t, "pairKind")
+	r := Int(t, "pairKind", 0, 99)
 	switch {
 	case r < 70:
 		return a, Edit(t, a, p), "edit"
@@ -513,4 +538,108 @@ func SetAt(v V, path []Step, nv V) (V, bool) {
 	}
 	out[s.Key] = c
 	return out, true
+}
+
+// ---------------------------------------------------------------- keyed sets
+
+func keyValue(t *rapid.T, p Profile) V {
+	r := Int(t, "keyValKind", 0, 99)
+	switch {
+	case r < 60:
+		return float64(Int(t, "kvInt", 0, 5))
+	case r < 85:
+		return Pick(t, "kvStr", []string{"x", "y", "", "1"})
+	case r < 90:
+		return Chance(t, "kvBool", 50)
+	case r < 95:
+		return []V{float64(Int(t, "kvArr", 0, 2))}
+	default:
+		return map[string]V{"n": float64(Int(t, "kvObj", 0, 2))}
+	}
+}
+
+func keyedMember(t *rapid.T, keys []string, p Profile, depth int) V {
+	o := map[string]V{}
+	for _, k := range keys {
+		o[k] = keyValue(t, p)
+	}
+	n := Int(t, "extraFields", 0, 3)
+	for i := 0; i < n; i++ {
+		k := Pick(t, "extraKey", []string{"a", "b", "c", "v"})
+		if depth < 2 && Chance(t, "nestedKeyed", 15) {
+			o[k] = KeyedArray(t, keys, p, depth+1)
+		} else {
+			o[k] = Value(t, Profile{MaxDepth: 2, MaxArr: 3, NullFree: p.NullFree}, 1)
+		}
+	}
+	return o
+}
+
+// KeyedArray draws an array of keyed objects (plus a few stray members).
+func KeyedArray(t *rapid.T, keys []string, p Profile, depth int) V {
+	n := Int(t, "keyedLen", 0, 5)
+	out := make([]V, 0, n)
+	for i := 0; i < n; i++ {
+		if Chance(t, "stray", 12) {
+			out = append(out, Scalar(t, p))
+			continue
+		}
+		out = append(out, keyedMember(t, keys, p, depth))
+	}
+	return Keyify(out, keys)
+}
+
+// KeyedPair draws two keyed-set documents in which many members keep their
+// key tuple while other fields change.
+func KeyedPair(t *rapid.T, keys []string, p Profile) (V, V) {
+	a := KeyedArray(t, keys, p, 0).([]V)
+	b := val.Clone(a).([]V)
+	n := Int(t, "keyedEdits", 1, 4)
+	for i := 0; i < n; i++ {
+		op := Int(t, "keyedOp", 0, 9)
+		switch {
+		case op < 5 && len(b) > 0: // change a non-key field of a member
+			j := Int(t, "member", 0, len(b)-1)
+			if o, ok := b[j].(map[string]V); ok {
+				k := Pick(t, "field", []string{"a", "b", "c", "v"})
+				r := Int(t, "fieldOp", 0, 3)
+				switch {
+				case r == 0:
+					delete(o, k)
+				case r == 1:
+					if _, present := o[k]; present {
+						o[k] = editAt(t, o[k], Profile{MaxDepth: 2, MaxArr: 3, NullFree: p.NullFree, Keyed: keys}.norm(), 1)
+					} else {
+						o[k] = Scalar(t, p)
+					}
+				default:
+					o[k] = Value(t, Profile{MaxDepth: 2, MaxArr: 3, NullFree: p.NullFree}, 1)
+				}
+			}
+		case op == 5 && len(b) > 0: // remove a member
+			j := Int(t, "member", 0, len(b)-1)
+			b = append(append([]V{}, b[:j]...), b[j+1:]...)
+		case op == 6: // add a member
+			j := Int(t, "at", 0, len(b))
+			b = append(append(append([]V{}, b[:j]...), keyedMember(t, keys, p, 0)), b[j:]...)
+		case op == 7 && len(b) > 0: // change a key value
+			j := Int(t, "member", 0, len(b)-1)
+			if o, ok := b[j].(map[string]V); ok {
+				o[Pick(t, "whichKey", keys)] = keyValue(t, p)
+			}
+		case op == 8 && len(b) >= 2: // reorder
+			b = rapid.Permutation(b).Draw(t, "perm")
+		default: // stray scalar
+			b = append(b, Scalar(t, p))
+		}
+	}
+	var av, bv V = a, Keyify(b, keys)
+	av = Keyify(av, keys)
+	switch Int(t, "keyedWrap", 0, 3) {
+	case 1:
+		av, bv = map[string]V{"items": av}, map[string]V{"items": bv}
+	case 2:
+		av, bv = map[string]V{"x": map[string]V{"items": av}, "n": 1.0}, map[string]V{"x": map[string]V{"items": bv}, "n": 1.0}
+	}
+	return av, bv
 }
